@@ -353,7 +353,7 @@ def run_single(mod, sub, case, ctx):
             if not chunk:
                 break
             data += chunk
-        elif time.time() - t0 > limit and (_cpu_ticks(child) or 0) > 0.5 * limit:
+        elif time.time() - t0 > limit and (_cpu_ticks(child) or 0) > limit:
             break
     os.close(r)
     done = os.waitpid(child, os.WNOHANG)[0] != 0
@@ -484,7 +484,7 @@ def run_check(modname, tier, seed, only_sub=None):
                         continue
                     busy = (_cpu_ticks(prog['pid']) or 0) - (prog.get('cpu') or 0)
                     elapsed = time.time() - prog['t']
-                    if busy >= 0.5 * watch:
+                    if busy >= watch:
                         # the worker has been computing on this one case all the time: a hang by the standard of this check
                         hung[j] = (prog['case'], f'still busy after {elapsed:.0f}s wall / {busy:.0f}s CPU on one case')
                         try:
